@@ -114,6 +114,11 @@ pub trait Property {
     fn hang_secs(&self) -> u64 {
         60
     }
+    /// Is this (possibly hand-reduced) case inside the domain the property quantifies over?
+    /// Used by the structural reducer, which deletes array elements of the case's JSON form.
+    fn in_domain(&self, _case: &Self::Case) -> bool {
+        true
+    }
 }
 
 #[derive(Default, Debug, Serialize, Deserialize)]
@@ -186,6 +191,86 @@ pub fn shrink<P: Property>(p: &P, mut tree: Box<dyn ValueTree<Value = P::Case>>,
         }
     }
     (last, last_f, iters)
+}
+
+/// Structural reduction after proptest's own shrinking: repeatedly delete one element of any array in
+/// the case's JSON form (routes, items, methods, requests, operations, bytes) while the failure with
+/// the same signature persists and the case stays in the property's domain.
+pub fn reduce_structurally<P: Property>(p: &P, case: P::Case, key: &str, fail: Failure) -> (P::Case, Failure) {
+    fn arrays(v: &serde_json::Value, path: &mut Vec<String>, out: &mut Vec<(Vec<String>, usize)>) {
+        match v {
+            serde_json::Value::Array(a) => {
+                out.push((path.clone(), a.len()));
+                for (i, x) in a.iter().enumerate() {
+                    path.push(i.to_string());
+                    arrays(x, path, out);
+                    path.pop();
+                }
+            }
+            serde_json::Value::Object(o) => {
+                for (k, x) in o {
+                    path.push(k.clone());
+                    arrays(x, path, out);
+                    path.pop();
+                }
+            }
+            _ => {}
+        }
+    }
+    fn at<'a>(v: &'a mut serde_json::Value, path: &[String]) -> Option<&'a mut serde_json::Value> {
+        let mut cur = v;
+        for k in path {
+            cur = match cur {
+                serde_json::Value::Array(a) => a.get_mut(k.parse::<usize>().ok()?)?,
+                serde_json::Value::Object(o) => o.get_mut(k)?,
+                _ => return None,
+            };
+        }
+        Some(cur)
+    }
+    let mut best = case;
+    let mut best_f = fail;
+    let mut budget = 3000u32;
+    'outer: loop {
+        let json = serde_json::to_value(&best).unwrap();
+        let mut list = Vec::new();
+        arrays(&json, &mut Vec::new(), &mut list);
+        // larger deletions first: whole tail halves, then single elements
+        for (path, len) in list {
+            let mut spans: Vec<(usize, usize)> = Vec::new();
+            if len >= 4 {
+                spans.push((len / 2, len));
+                spans.push((0, len / 2));
+            }
+            for i in (0..len).rev() {
+                spans.push((i, i + 1));
+            }
+            for (lo, hi) in spans {
+                if budget == 0 {
+                    break 'outer;
+                }
+                let mut cand = json.clone();
+                match at(&mut cand, &path) {
+                    Some(serde_json::Value::Array(a)) if hi <= a.len() => {
+                        a.drain(lo..hi);
+                    }
+                    _ => continue,
+                }
+                let Ok(c) = serde_json::from_value::<P::Case>(cand) else { continue };
+                if !p.in_domain(&c) {
+                    continue;
+                }
+                budget -= 1;
+                if let Some(f) = run_case(p, &c).failures.into_iter().find(|f| f.key == key) {
+                    best = c;
+                    best_f = f;
+                    continue 'outer;
+                }
+            }
+        }
+        break;
+    }
+    (best, best_f)
 }
 
 #[derive(Serialize, Deserialize, Debug, Clone)]
